@@ -268,6 +268,26 @@ func sortedStrict[T comparable](c *core.Ctx, tname string, gen func(*core.Rand) 
 		}
 		return out
 	}
+	// further Sorted values of the same element type, created while the first one is in
+	// use (17..520 initial values: the sizes where a constructor might sort through
+	// shared scratch memory); every one must keep its own contents
+	type otherSorted struct {
+		s     slices.Sorted[T]
+		model []T
+	}
+	var others []otherSorted
+	spawnOther := func() {
+		k := []int{r.Range(17, 40), r.Range(65, 130), r.Range(257, 520), r.Range(1, 16)}[r.Intn(4)]
+		in := make([]T, k)
+		for i := range in {
+			in[i] = gen(r)
+		}
+		m := append([]T(nil), in...)
+		sort.SliceStable(m, func(i, j int) bool { return less(m[i], m[j]) })
+		others = append(others, otherSorted{slices.NewSorted(in, less), m})
+		hist = append(hist, fmt.Sprintf("another NewSorted(%d values)", k))
+		c.Count("second_sorted_values_created", 1)
+	}
 	var check func(op string) bool
 	check = func(op string) bool {
 		var got []T
@@ -276,6 +296,19 @@ func sortedStrict[T comparable](c *core.Ctx, tname string, gen func(*core.Rand) 
 			return false
 		}
 		c.Count("observations", 1)
+		for oi := range others {
+			o := &others[oi]
+			if o.s.Len() != len(o.model) {
+				fail(op+":another-value-changed", fmt.Sprintf("Sorted value number %d created during this history has Len %d, it was built from %d values", oi+2, o.s.Len(), len(o.model)))
+				return false
+			}
+			for i, v := range o.model {
+				if g := o.s.Get(i); g != v {
+					fail(op+":another-value-changed", fmt.Sprintf("Sorted value number %d created during this history holds %v at position %d, it was built with %v there", oi+2, g, i, v))
+					return false
+				}
+			}
+		}
 		if !eqSlice(got, model) {
 			fail(op+":contents", fmt.Sprintf("after %s contents are %v, model %v", op, got, model))
 			return false
@@ -303,6 +336,12 @@ func sortedStrict[T comparable](c *core.Ctx, tname string, gen func(*core.Rand) 
 	}
 	if !check("NewSorted") {
 		return
+	}
+	if r.Chance(1, 3) {
+		spawnOther()
+		if !check("NewSorted(another value)") {
+			return
+		}
 	}
 	// mutating the caller's slice must not reach the Sorted
 	if len(input) > 0 && r.Bool() {
@@ -438,6 +477,9 @@ func sortedStrict[T comparable](c *core.Ctx, tname string, gen func(*core.Rand) 
 		}
 	}
 	for step = 0; step < nops; step++ {
+		if len(others) < 3 && r.Chance(1, 80) {
+			spawnOther()
+		}
 		switch r.Pick(30, 12, 8, 8, 4, 10, 10, 4) {
 		case 0: // Add
 			v := gen(r)
